@@ -225,6 +225,27 @@ def sched_verdict(sim, out):
     return None, False
 
 
+def _visible_after_failure(fs, final_dir, arr, bounds, w, comp):
+    def complete():
+        prefix = strax.dirname_to_prefix(final_dir)
+        try:
+            with fs.open(f"{final_dir}/{prefix}-metadata.json") as f:
+                md = json.loads(f.read())
+        except Exception:
+            return False
+        return "exception" not in md and bool(md.get("writing_ended"))
+    if not offline(fs, complete):
+        return None
+    try:
+        bad = judge_dir(fs, final_dir, arr, bounds, w["rechunk"], comp)
+    except Exception as e:
+        bad = Violation("UNLOADABLE", f"cannot be loaded: {sig_of_exception(e)}", repr(e)[:400])
+    if bad is None:
+        return None
+    return Violation("VISIBLE_AFTER_FAILED_REWRITE", "rechunker failed, yet the destination holds data that looks "
+                     f"complete and is wrong: {bad.cls}", f"{bad.signature}; {str(bad.detail)[:400]}")
+
+
 def execute_rechunker(w, seed, strategy, forced, strict):
     fs = SimFS(order_salt=w["fs_order"])
     R = SimRun(seed, strategy=strategy, forced=forced, strict=strict, fs=fs, est_steps=300)
@@ -279,6 +300,9 @@ def execute_rechunker(w, seed, strategy, forced, strict):
         elif snapshot(fs, src) != res["src_digest"]:
             vio = Violation("SOURCE_LOST", f"rechunker failed ({w['fault']['op']} error) and the source data is "
                                            f"changed or gone (replace={w['replace']})", fs.tree(src)[:8])
+        elif final_dir != src and fs.isdir(final_dir):
+            # ... and a half-written copy is not left under the final name looking complete
+            vio = _visible_after_failure(fs, final_dir, arr, bounds, w, comp)
     elif vio is None and not inconclusive:
         if out[0] == "exc":
             vio = Violation("EXC", f"rechunker raised {sig_of_exception(out[1])}", repr(out[1])[:800])
@@ -336,7 +360,21 @@ def judge_copy(w, fs, res, roots, exp, spec, target):
         if isinstance(e, S.HarnessError):
             raise e
         if fired or not expected:
-            return None        # a failed / refused copy; what is left in the target is C04's subject
+            # a failed / refused copy: whatever a destination frontend now reports as stored (frontends served
+            # before the failing one, or a half-written copy wrongly left visible) loads to the original rows
+            for i in range(1, n + 1):
+                ent = res["per"][i]
+                if i in have or not ent["stored"]:
+                    continue
+                if "exc" in ent:
+                    return Violation("VISIBLE_AFTER_FAILED_COPY", "copy_to_frontend failed, yet a destination reports "
+                                     f"the data as stored and it cannot be loaded: {sig_of_exception(ent['exc'])}",
+                                     f"frontend {i}; {where}; {ent['exc']!r}"[:600])
+                if not P.rows_equal(ent["rows"], exp):
+                    return Violation("VISIBLE_AFTER_FAILED_COPY", "copy_to_frontend failed, yet a destination reports "
+                                     "the data as stored and it loads to different rows",
+                                     f"frontend {i}; {where}; " + P.describe_diff(ent["rows"], exp))
+            return None
         return Violation("EXC", f"copy: {sig_of_exception(e)}", repr(e)[:800])
     vio = None
     if not expected:
